@@ -143,6 +143,9 @@ def case_call(ctx, spec):
     kind = spec["algo"]
     flags = spec["flags"]
     data = interp.mk_frame(ds, {"a": [100.0 + i for i in range(len(ds))]})
+    if spec.get("tz"):
+        # exchange-local stamps: the periods are those of the wall clock the stamps show, whatever their UTC instants are
+        data.index = data.index.tz_localize(spec["tz"], nonexistent="shift_forward", ambiguous=True)
     algo = getattr(bt.algos, kind)(**flags)
     s = bt.Strategy("s", [algo])
     b = bt.Backtest(s, data, progress_bar=False)
@@ -188,7 +191,7 @@ def case_call(ctx, spec):
         n_gap += 1
         if a2(FakeTarget(idx, cand)):
             raise Violation("%s(%s) fired on %s, which is not a date of the data %s" % (kind, flags, cand, [str(x) for x in idx]), signature="call:not-a-row")
-    labs = [kind, "eop" if flags.get("run_on_end_of_period") else "sop"] + (["gap_dates_probed"] if n_gap > 2 else [])
+    labs = [kind, "eop" if flags.get("run_on_end_of_period") else "sop"] + (["gap_dates_probed"] if n_gap > 2 else []) + (["tz_aware_index"] if spec.get("tz") else [])
     isoweeks = {r.isocalendar()[1] for r in real}
     if 53 in isoweeks or (1 in isoweeks and any(r.month == 12 for r in real)):
         labs.append("iso-week-53/1-straddle")
@@ -198,7 +201,7 @@ def case_call(ctx, spec):
 @st.composite
 def call_spec(draw):
     ds = draw(gen.dates(1, 30, kinds=("bday", "daily", "mixed", "sparse", "intraday")))
-    return {"dates": ds, "algo": draw(st.sampled_from(ALGOS)), "flags": draw(gen.FLAGS)}
+    return {"dates": ds, "algo": draw(st.sampled_from(ALGOS)), "flags": draw(gen.FLAGS), "tz": draw(st.sampled_from([None, None, "Europe/Berlin", "Asia/Tokyo", "America/New_York"]))}
 
 
 # ---- generated: counting / date schedulers ------------------------------------------------------
